@@ -1464,4 +1464,14 @@ theorem krun_docs (key : Nat → Nat) (evs : List Impl.WEvent) (st : Impl.KStore
   | nil => rfl
   | cons e es ih => simp only [Impl.krun, Impl.wrun]; rw [ih]; rfl
 
+theorem sourceKey_injective (a b : Impl.Uri) (h : Impl.sourceKey a = Impl.sourceKey b) : a = b := by
+  unfold Impl.sourceKey at h
+  split at h <;> split at h
+  · rename_i ha hb
+    cases a; cases b
+    simp_all
+  · simp at h
+  · simp at h
+  · simpa using h
+
 end TrustVerif.C14
